@@ -131,6 +131,17 @@ Op(act, args, res) == /\ out = None
 
 (* the map itself: what a constructor / a serialisation round trip must preserve *)
 DoDenote      == Op("Denote", <<>>, Val(E0, P0))
+(* Constructors.  The spans (or locations) may be handed over in any container the signature   *)
+(* accepts: a list, a tuple, a generator, iter(list), the `.spans` generator property of another *)
+(* map passed straight through (to the constructor or to from_spans), a list / numpy array of    *)
+(* locations.  The constructed map is the same for all of them.                                  *)
+SpanContainers == {"list", "tuple", "generator", "iter", "map_spans", "from_spans_list", "from_spans_map_spans"}
+LocationContainers == {"locations_list", "locations_tuple", "locations_array"}
+(* from_locations takes forward, ordered locations only *)
+Locatable(sp) == /\ \A k \in 1..Len(sp) : ~IsLost(sp[k]) /\ sp[k][3] = 0
+                 /\ (IF Len(sp) = 0 THEN TRUE ELSE sp[1][1] <= sp[Len(sp)][2])
+DoBuild(c)    == /\ (c \in LocationContainers => Locatable(m.spans))
+                 /\ Op("Build", <<c>>, Val(E0, P0))
 (* get_coordinates(): (start, end) of every span that is not lost, in span order *)
 CoordsOf(sp)  == LET keep == SelectSeq(sp, LAMBDA x : ~IsLost(x))
                  IN [k \in 1..Len(keep) |-> <<keep[k][1], keep[k][2]>>]
@@ -168,6 +179,7 @@ Init == /\ \E P \in 0..MaxP : \E sp \in SpanLists(P, MaxSpans) : m = [spans |-> 
 
 Next == /\ out = None      \* result states have no successors
         /\ \/ DoDenote \/ DoCoords
+           \/ \E c \in SpanContainers \cup LocationContainers : DoBuild(c)
            \/ DoCovered \/ DoInverse \/ DoShadow \/ DoNucRev \/ DoGaps \/ DoNongap
            \/ DoWithoutGaps \/ DoZeroed \/ DoCovering
            \/ \E k \in Scales : DoScale(k)
